@@ -227,6 +227,8 @@ _EXTRA3 = {
  "C11": "OVER HISTORIES (FarmsSafe.v, C11_others_cannot_touch_a_farm / ..._in_any_reachable_world): through ANY history of operations none of which is signed by o (a user address) - every call between the contracts, replies, rejected operations, injected faults - every farm owned by o in the final world was already his at the start, with the same identifier, LP denom, reward denom and budget, emission rate, start and end; only the claimed amount may have grown. Nobody else can create a farm in his name, expand or otherwise alter it (it may only disappear: closed by the contract owner or swept on expiry, refunding o). Kernel-evaluated example: C11_farms_example.",
  "C05": "THE 'HENCE' (Redeemable.v, C05_closed_position_withdrawal_transaction_succeeds): in every world reachable from genesis with no fault being injected, the withdrawal TRANSACTION of a closed position whose unlock instant has been reached, sent by its owner, SUCCEEDS - the handler accepts it and the farm manager's balance covers the transfer of the whole recorded amount (side conditions of a real bank: the owner is not the farm manager, his balance is non-negative and stays within u128). Kernel-evaluated example: C05_redeem_example. The analogous success statement for farm refunds is not proved (a failing refund is tolerated by design, C20).",
  "C20": "Monitor mon_C20f on the implementation: a rejected operation leaves the whole snapshot unchanged, and a transaction ACCEPTED while an injected fault was pending (the only tolerated internal failure being a close-farm refund) is fully consistent - the pool manager's excess moves only as C01 allows, reserves stay backed, the farm manager's custody holds; a swap that commits although one of its transfers failed shows up as a concrete failing history.",
+ "C06": "OVER HISTORIES (CursorSafe.v, C06_claim_cursor_moves_only_by_its_owner): a user's claim cursor moves only through his own transactions - through any history of operations he does not sign it is exactly what it was, so nobody else can rewind it (an epoch payable twice) or advance it (epochs lost). Kernel-evaluated example: C06_cursor_example.",
+ "C07": "OVER HISTORIES (CursorSafe.v, C07_claim_cursor_moves_only_by_its_owner): through any history of operations a user does not sign, his claim cursor is exactly what it was - the span of epochs his next claim covers is decided by his own claims alone. Kernel-evaluated example: C07_cursor_example.",
  "C09": "Monitor mon_C09 also checks the split on the implementation: after an accepted emergency withdrawal the penalty goes only to the configured fee collector and to owners of farms on that LP denom, in EQUAL shares per distinct owner, nobody loses anything, and what leaves the farm manager is exactly payout + shares and at most the recorded amount.",
  "C14": "Monitor mon_C14s also checks on the implementation that an accepted single-asset deposit creates or changes only positions owned by its sender, and that a requested lock produces such a position.",
 }
